@@ -589,3 +589,17 @@ def Report.partialOk (r : Report) : Bool :=
 def Report.nep18Violations (r : Report) : List (Probe × ProbeResult) := r.probes.filter fun e => !e.2.ok
 
 end SparseV.Dispatch
+
+/- witness data of `C17.spellings_agree_counterexample` (kept with the model so that the driver does not import the property file) -/
+namespace SparseV.C17
+open SparseV SparseV.Gen SparseV.Dispatch
+
+/-- the witness of F-nep18-signature: `np.var(x, ddof=1)` -/
+def witnessDdof : Probe := { pub := nm_numpy_var, mpath := [], name := nm_var, param := nm_ddof, way := Way.kw nm_ddof }
+
+/-- is the witness a violation on table `t` (evaluated by the model driver on every run; today: true) -/
+def witnessActive (t : List Entry) : Bool :=
+  (probes t nm_COO).any fun e => e.1 == witnessDdof && !e.2.ok
+
+
+end SparseV.C17
